@@ -369,7 +369,7 @@ impl<'a> MachineAfterRegWrite<'a> {
             } else if machine.last_bus_read == 0x01 && machine.state == State::Running {
                 warn!("Read 0x01 instruction. Halting.");
                 machine.state = State::Stopped;
-            } else if machine.last_bus_read == 0b0010_1100 {
+            } else if machine.last_bus_read == 0b0010_1100 && machine.signals().mac3() {
                 // We need to clear some MISR flags once the program returns from interrupt
                 trace!("RETI detected. Removing MISR flags");
                 // TODO: I don't actually know when this needs setting. See #34
